@@ -373,7 +373,7 @@ func init() {
 
 	// ---- fmt (messages are not part of any property: best effort text) ----
 	reg(func(c *callCtx) (Value, ctl) {
-		return StrV{s: c.p.format(c.args[0], c.args[1])}, ctlRet
+		return c.p.sprintfExact(c.args[0], c.args[1]), ctlRet
 	}, "fmt.Sprintf")
 	reg(func(c *callCtx) (Value, ctl) {
 		return StrV{s: c.p.format(nil, c.args[0])}, ctlRet
@@ -418,6 +418,19 @@ func init() {
 		}
 		return TupleV{c.p.newByteSliceNoMonitor(bs), IfaceV{}}, ctlRet
 	}, "encoding/json.Marshal", "encoding/json.MarshalIndent")
+
+	// ---- randomness: fresh symbolic bytes ----
+	reg(func(c *callCtx) (Value, ctl) {
+		p := c.p
+		sl := c.args[0].(SliceV)
+		if sl.len > 0 {
+			arr := p.arrayAt(sl.arr, true)
+			for i := 0; i < sl.len; i++ {
+				arr.e[sl.off+i] = p.fresh("rand", 8)
+			}
+		}
+		return TupleV{p.tc().BV(uint64(sl.len), 64), IfaceV{}}, ctlRet
+	}, "crypto/rand.Read")
 
 	// ---- time ----
 	reg(func(c *callCtx) (Value, ctl) { return c.p.timeNow(), ctlRet }, "time.Now")
@@ -506,6 +519,97 @@ func (p *Path) goValue(v Value) interface{} {
 		return "<symstr>"
 	}
 	return "<?>"
+}
+
+// sprintfExact formats with exact results for symbolic strings and byte slices under %s / %v (the
+// bytes are spliced in); other symbolic values keep the best-effort placeholder and leave a note.
+func (p *Path) sprintfExact(f Value, args Value) Value {
+	fs := p.asStr(f)
+	sv, ok := args.(SliceV)
+	if !fs.Concrete() || !ok {
+		return StrV{s: p.format(f, args)}
+	}
+	var argv []Value
+	if sv.len > 0 {
+		arr := p.arrayAt(sv.arr, false)
+		for i := 0; i < sv.len; i++ {
+			argv = append(argv, arr.e[sv.off+i])
+		}
+	}
+	symbolicBytes := func(v Value) ([]*Term, bool) {
+		iv, ok := v.(IfaceV)
+		if !ok || iv.t == nil {
+			return nil, false
+		}
+		switch x := iv.v.(type) {
+		case StrV:
+			if !x.Concrete() {
+				return p.strBytes(x), true
+			}
+		case SliceV:
+			if sl, ok := iv.t.Underlying().(*types.Slice); ok {
+				if b, ok := sl.Elem().Underlying().(*types.Basic); ok && b.Kind() == types.Uint8 {
+					bs := p.sliceBytes(x)
+					for _, t := range bs {
+						if !t.IsConst() {
+							return bs, true
+						}
+					}
+				}
+			}
+		}
+		return nil, false
+	}
+	needExact := false
+	for _, a := range argv {
+		if _, ok := symbolicBytes(a); ok {
+			needExact = true
+		}
+	}
+	if !needExact {
+		return StrV{s: p.format(f, args)}
+	}
+	// split the format at plain %s / %v verbs; anything fancier falls back to the placeholder form
+	var out []*Term
+	format := fs.s
+	ai := 0
+	lit := func(s string) {
+		for i := 0; i < len(s); i++ {
+			out = append(out, p.tc().BV(uint64(s[i]), 8))
+		}
+	}
+	for i := 0; i < len(format); i++ {
+		ch := format[i]
+		if ch != '%' {
+			lit(string(ch))
+			continue
+		}
+		if i+1 >= len(format) {
+			lit("%!(NOVERB)")
+			break
+		}
+		verb := format[i+1]
+		i++
+		if verb == '%' {
+			lit("%")
+			continue
+		}
+		if ai >= len(argv) {
+			lit("%!" + string(verb) + "(MISSING)")
+			continue
+		}
+		a := argv[ai]
+		ai++
+		if bs, ok := symbolicBytes(a); ok && (verb == 's' || verb == 'v') {
+			out = append(out, bs...)
+			continue
+		}
+		if _, ok := symbolicBytes(a); ok {
+			p.note("fmt.Sprintf: symbolic text under verb %%%c is rendered as a placeholder", verb)
+		}
+		lit(fmt.Sprintf("%"+string(verb), p.goValue(a)))
+	}
+	return p.mkStr(out)
 }
 
 func (p *Path) format(f Value, args Value) string {
